@@ -1,6 +1,11 @@
 #!/bin/sh
-# usage: tools/coqmake.sh Props/Cxx.vo Corr/Cxx_run.vo ...   (serialised with other builders)
-# each coqc is limited to 12 GB of address space and the whole build to COQ_TIMEOUT (default 900 s):
+# usage: tools/coqmake.sh Props/Cxx.vo Corr/Cxx_run.vo ...
+# The build lock is held only while the project files are regenerated and the shared Lib/*.vo are
+# brought up to date; the property's own targets are then built without the lock (only their owner
+# builds them), so a long proof no longer blocks everybody else.
+# Each coqc is limited to 12 GB of address space and the build to COQ_TIMEOUT (default 900 s):
 # a proof that needs more is a runaway vm_compute/lia and must be restructured.
 cd "$(dirname "$0")/.."
-exec flock .coq.lock sh -c 'ulimit -v 12000000; tools/mkcoq.sh && cd coq && timeout ${COQ_TIMEOUT:-900} make -j8 "$@"' sh "$@"
+ulimit -v 12000000
+flock .coq.lock sh -c 'tools/mkcoq.sh && cd coq && timeout 900 make -j8 $(ls Lib/*.v | sed "s/\.v$/.vo/")' || exit 1
+cd coq && exec timeout ${COQ_TIMEOUT:-900} make -j8 "$@"
